@@ -1,0 +1,52 @@
+//! Verification-only event sink (compiled only with `--cfg p3r_verif`).
+//!
+//! Hooks emit one NDJSON line per specification action at its linearization point (the crates
+//! are sequential libraries: that is the return of the call). Lines are appended to the file
+//! named by the environment variable `P3R_TRACE`; without it, emitting is a no-op. No hook
+//! changes behaviour.
+extern crate std;
+
+use alloc::string::String;
+use std::fs::{File, OpenOptions};
+use std::io::Write;
+use std::sync::{Mutex, OnceLock};
+
+static SINK: OnceLock<Option<Mutex<File>>> = OnceLock::new();
+static SEQ: std::sync::atomic::AtomicU64 = std::sync::atomic::AtomicU64::new(0);
+
+fn sink() -> &'static Option<Mutex<File>> {
+    SINK.get_or_init(|| {
+        std::env::var("P3R_TRACE").ok().and_then(|p| {
+            OpenOptions::new()
+                .create(true)
+                .append(true)
+                .open(p)
+                .ok()
+                .map(Mutex::new)
+        })
+    })
+}
+
+/// Whether a trace file is configured (lets hooks skip building their payload).
+pub fn enabled() -> bool {
+    sink().is_some()
+}
+
+/// Append one event: `{"seq":n,"tid":t,<fields>}`; `fields` is the inside of a JSON object.
+pub fn emit(fields: &str) {
+    if let Some(m) = sink() {
+        let seq = SEQ.fetch_add(1, std::sync::atomic::Ordering::SeqCst);
+        let tid = std::format!("{:?}", std::thread::current().id());
+        let tid: String = tid.chars().filter(|c| c.is_ascii_digit()).collect();
+        if let Ok(mut f) = m.lock() {
+            let _ = std::writeln!(f, "{{\"seq\":{seq},\"tid\":{tid},{fields}}}");
+        }
+    }
+}
+
+static IDS: std::sync::atomic::AtomicU64 = std::sync::atomic::AtomicU64::new(1);
+
+/// A process-unique identity for an instrumented object.
+pub fn fresh_id() -> u64 {
+    IDS.fetch_add(1, std::sync::atomic::Ordering::SeqCst)
+}
